@@ -388,7 +388,7 @@ def gen_fill(shard):
 # ---------------------------------------------------------------------------------------
 # place_at after place / remove-last round trips (start beats that are accumulated floats)
 # ---------------------------------------------------------------------------------------
-DRIFT_SYMBOLS = {"q": "4", "t": "8*3:2", "f": "4*5:4", "s": "16*7:4"}
+DRIFT_SYMBOLS = {"q": "4", "t": "8*3:2", "f": "4*5:4", "s": "16*7:4", "x": "128*7:4", "y": "128..."}
 _DRIFT_NOTES = [("F", 5), ("A", 5), ("B", 5), ("D", 6), ("F", 6), ("A", 6), ("B", 6), ("D", 7), ("F", 7), ("A", 7), ("B", 7), ("D", 8)]
 
 
@@ -534,6 +534,7 @@ def run_near_full(case):
     S = engine.S
     meter, labels = case
     st = State(meter)
+    check_invariant(st, S)
     for lab in labels:
         do_place(st, S, V.BY_LABEL[lab], "str", "place_notes", True)
         check_invariant(st, S)
@@ -669,11 +670,13 @@ def explore(ctx):
         shards = [((4, 4), "qt-", long_n, a + b) for a in "qt" for b in "qt-"]
         shards += [((4, 4), "qtfs-", wide_n, a + b) for a in "qtfs" for b in "qtfs-"]
         shards += [((0, 0), "qtf-", wide_n, a + b) for a in "qtf" for b in "qtf-"]
+        # the shortest values of the vocabulary: neighbouring entries start a few thousandths of a whole note apart
+        shards += [((4, 4), "qxy-", ctx.pick(6, 7), a + b) for a in "qxy" for b in "qxy-"]
         ctx.bound("place_at_drift", {"programs over {q,t,-}": "length <= %d" % long_n, "over {q,t,f,s,-} in 4/4 and {q,t,f,-} in (0,0)": "length <= %d" % wide_n,
                                      "symbols": DRIFT_SYMBOLS})
         ctx.product("place_at_drift", shards, gen_place_at_drift)
     if not only or "near_full" in only:
-        nf_meters = [(1, 64), (1, 32), (3, 64), (1, 16)]
+        nf_meters = [(1, 64), (1, 32), (3, 64), (1, 16), (1, 1024), (1, 2048), (3, 4096)]
         ctx.bound("near_full", {"meters": nf_meters, "values": FINE_LABELS, "entries": "<= 3"})
         ctx.product("near_full", [(m, l) for m in nf_meters for l in FINE_LABELS], gen_near_full)
         if not only:
